@@ -43,6 +43,16 @@ def exps(d, E, dist):
     elif dist == 'alt':
         s = [(100 if k % 2 == 0 else -100) for k in range(d)]
         s[0] += E - sum(s)
+    elif dist == 'vee':
+        # down then up: the running product of <Y,Y> dips into the subnormal range (about 2^-1050) and comes back,
+        # the total stays representable (E is the total exponent, normally 0)
+        h = d // 2
+        if h < 4:
+            return None
+        base, rem = divmod(525, h)
+        down = [-(base + (1 if k < rem else 0)) for k in range(h)]
+        s = down + [0] * (d - 2 * h) + [-x for x in down[::-1]]
+        s[-1] += E
     else:
         raise ValueError(dist)
     if any(x < -150 or x > 450 for x in s):
@@ -160,6 +170,16 @@ def check_config(c):
             q = ratio(v12, int(p12), N12, sum(s) + sum(s2))
             res.check(q is not None and abs(q - 1) <= tol, 'dot.value2', case,
                       lambda: '<Y1,Y2>: v*2^p / exact = %r' % q, tags + ['value'])
+        # ---- integer-typed cores (small integers stored as int64): the stabilised product must not truncate them ----------
+        if c['pat'] == 'pos' and E == 0 and dist == 'even':
+            Mi = [G.astype(np.int64) for G in M]
+            vi, pi = teneva.mul_scalar(Mi, Mi, use_stab=True)
+            q = ratio(vi, int(pi), N, 0)
+            res.check(q is not None and abs(q - 1) <= tol, 'dot.int_cores', case,
+                      lambda: 'integer-typed cores: v*2^p / exact = %r' % q, tags + ['value'])
+            ni, phi_ = teneva.norm(Mi, use_stab=True)
+            q = ratio(ni * ni, int(2 * phi_), N, 0)
+            res.check(q is not None and abs(q - 1) <= 2 * tol, 'norm.int_cores', case, lambda: 'integer-typed cores: norm ratio %r' % q, tags + ['value'])
         # ---- plain vs stabilised when the plain result is representable -------------------------------
         # plain computation representable: the final value AND every partial product of the left-to-right chain
         pref = np.cumsum([2 * x for x in s])
@@ -306,7 +326,7 @@ def strata(tier, seed):
     for d in ds:
         for r in ((1, 2, 3) if d <= 100 else (1, 2)):
             for E in Es:
-                for dist in ('even', 'first', 'last', 'alt'):
+                for dist in ('even', 'first', 'last', 'alt', 'vee'):
                     for pat in (('pos', 'signed') if d <= 10 else ('pos',)):
                         if exps(d, E, dist) is None:
                             continue
